@@ -471,6 +471,38 @@ def rule_h(ctx, idx, A, rule="C01.h"):
     ctx.floor(rule, "by-name consultations of the command table while loading (the duplicate check)", seen, 1)
 
 
+def rule_i(ctx, idx, A):
+    ctx.rule(
+        "C01.i",
+        "An interrupted evaluation leaves no trace: every attribute Command.run sets to True while it works (the in-progress mark) is "
+        "set back to False on every way out of run, normal or exceptional - otherwise the commands an error unwound through stay "
+        "marked, and the next run() of the same program rejects an acyclic graph as recursive instead of executing what is left.",
+    )
+    fi = A.run
+    sn = K.self_name(fi)
+    cfg = K.cfg_of(idx, fi)
+    marks = {}
+    for n in cfg.find("store"):
+        a = n.meta.get("attr")
+        if a and self_attr(n.ast, sn) and a not in (A.flag, A.memo) and isinstance(n.meta.get("value"), ast.Constant) and n.meta["value"].value is True:
+            marks.setdefault(a, []).append(n)
+    n_marks = 0
+    for a, sets in sorted(marks.items()):
+        resets = {n for n in cfg.find("store") if n.meta.get("attr") == a and self_attr(n.ast, sn) and isinstance(n.meta.get("value"), ast.Constant) and n.meta["value"].value is False}
+        if not resets:
+            continue  # not a mark that is taken back at all (a different kind of attribute)
+        for s_ in sets:
+            n_marks += 1
+            con = "%s::mark-taken-back(%s)" % (fi.key, a)
+            live = cfg.reachable(s_)
+            leaks = [("normally", cfg.exit), ("by an exception", cfg.raise_exit)]
+            bad = [how for how, ex in leaks if ex in live and not cfg.must_pass_through(s_, ex, resets)]
+            ctx.ob("C01.i", con, K.rel(fi), s_.line, not bad,
+                   "`%s` is set back to False on every way out of run" % a if not bad else
+                   "`%s = True` (line %d) is not taken back when run is left %s: after a failed or interrupted evaluation the commands on the stack stay marked, and running the program again raises the recursive-model error for an acyclic graph instead of executing the unfinished commands" % (a, s_.line, " and ".join(bad)))
+    ctx.count("in_progress_marks", n_marks)
+
+
 def run(ctx, idx):
     A = K.anchors(idx)
     ctx.assume("Python semantics of attribute stores, properties and exceptions as modelled by the CFG builder")
@@ -485,5 +517,6 @@ def run(ctx, idx):
     rule_f(ctx, idx, A)
     rule_g(ctx, idx, A)
     rule_h(ctx, idx, A)
+    rule_i(ctx, idx, A)
     ctx.count("modules", len(idx.modules))
     ctx.count("functions", len(idx.funcs))
